@@ -1059,7 +1059,16 @@ def check_flag_across_swap(cr, rep):
         rets += [x['e'] for x, _ in walk(b['tree']) if x.get('k') == 'ret' and 'e' in x]
         for r in rets:
             n += 1
-            mentioned = [y['id'] for y, _ in walk(r) if y.get('k') == 'path' and y.get('res') == 'local' and y['id'] in lets]
+            mentioned = {y['id'] for y, _ in walk(r) if y.get('k') == 'path' and y.get('res') == 'local' and y['id'] in lets}
+            # .. directly or through the locals it is computed from (`let grew = before != self.0.len(); grew`)
+            inits = {x['p']['id']: x['i'] for x, _ in walk(b['tree']) if x.get('k') == 'let' and 'i' in x and x['p'].get('k') == 'bind'}
+            grew_ = True
+            while grew_:
+                grew_ = False
+                for i in list(mentioned):
+                    for y, _ in walk(inits.get(i, {'k': 'none'})):
+                        if y.get('k') == 'path' and y.get('res') == 'local' and y['id'] in lets and y['id'] not in mentioned:
+                            mentioned.add(y['id']); grew_ = True
             pre = [i for i in mentioned if lets[i] < first_swap]
             ok = bool(pre)
             rep.inst('L10.W', '%s: the receiver is swapped with the argument; the returned flag mentions a value recorded before the swap: %s' % (path, ok))
